@@ -40,7 +40,7 @@ GROUPS = {
     'syntax': dict(crate='minijinja', features=BASE_FEATURES + ',custom_syntax'),
     'autoreload': dict(crate='minijinja-autoreload', features=''),
 }
-MEM_LIMIT = int(os.environ.get('VERIF_MEM_GB', '14')) << 30
+MEM_LIMIT = int(os.environ.get('VERIF_MEM_GB', '9')) << 30
 
 ENV = dict(os.environ, CARGO_NET_OFFLINE='true')
 ENV.pop('RUSTFLAGS', None)
@@ -167,8 +167,9 @@ def group_args(group):
     return a
 
 
-def target_dir(group):
-    return os.path.join(BUILD, 'kani-' + group)
+def target_dir(group, prop=''):
+    # one target dir per (group, property): concurrent checks never share build output
+    return os.path.join(BUILD, 'kani-' + group + ('-' + prop if prop else ''))
 
 
 def ensure_playback_files():
@@ -179,11 +180,11 @@ def ensure_playback_files():
             open(p, 'w').write('')
 
 
-def build(group, harnesses):
+def build(group, harnesses, prop=''):
     """Compile the selected harnesses of one group; return metadata by pretty name."""
     ensure_playback_files()
     g = GROUPS[group]
-    cmd = ['cargo', 'kani', '--target-dir', target_dir(group)] + group_args(group) + \
+    cmd = ['cargo', 'kani', '--target-dir', target_dir(group, prop)] + group_args(group) + \
           ['--only-codegen', '-Z', 'stubbing', '--exact']
     for h in harnesses:
         cmd += ['--harness', h['full']]
@@ -196,9 +197,9 @@ def build(group, harnesses):
         return None, dt, tail
     # newest metadata file of this crate that contains our harnesses
     crate_us = g['crate'].replace('-', '_')
-    metas = glob.glob(os.path.join(target_dir(group), 'kani', '*', 'debug', 'build', g['crate'], '*', 'out',
+    metas = glob.glob(os.path.join(target_dir(group, prop), 'kani', '*', 'debug', 'build', g['crate'], '*', 'out',
                                    '*.kani-metadata.json'))
-    metas += glob.glob(os.path.join(target_dir(group), 'kani', '*', 'debug', 'deps', '*.kani-metadata.json'))
+    metas += glob.glob(os.path.join(target_dir(group, prop), 'kani', '*', 'debug', 'deps', '*.kani-metadata.json'))
     want = {h['full'] for h in harnesses}
     best = None
     for mf in sorted(metas, key=os.path.getmtime, reverse=True):
@@ -371,27 +372,49 @@ def interpret(js, res):
 # the real kani driver: concrete playback + cross-check
 # --------------------------------------------------------------------------
 
+import threading
+_SLOTS = [threading.Lock() for _ in range(3)]
+
+
+def _take_slot():
+    while True:
+        for i, l in enumerate(_SLOTS):
+            if l.acquire(blocking=False):
+                return i, l
+        time.sleep(0.5)
+
+
 PB_BLOCK = re.compile(r'Concrete playback unit test for `([^`]+)`:\n```\n(.*?)\n```', re.S)
 
 
-def kani_driver_run(h, cap):
+def kani_driver_run(h, cap, prop=''):
     """Run the real `cargo kani` on one harness with concrete playback printing."""
     g = GROUPS[h['group']]
-    cmd = ['cargo', 'kani', '--target-dir', target_dir(h['group'] + '-drv')] + group_args(h['group']) + \
-          ['-Z', 'stubbing', '--exact', '--harness', h['full'], '-Z', 'concrete-playback',
-           '--concrete-playback=print']
-    t0 = time.time()
+    # kani-driver reads the crate's metadata after compiling, so two drivers must not share a
+    # target dir: take one of three per-property slots exclusively
+    slot, lock = _take_slot()
     try:
-        p = subprocess.run(cmd, cwd=os.path.join(REPO, g['crate']), env=ENV, stdout=subprocess.PIPE,
-                           stderr=subprocess.STDOUT, text=True, timeout=cap, preexec_fn=_limits)
-        outp = p.stdout
-    except subprocess.TimeoutExpired as e:
-        return dict(verdict='timeout', tests=[], wall_s=time.time() - t0, raw='')
+        cmd = ['cargo', 'kani', '--target-dir', target_dir(h['group'] + '-drv%d' % slot, prop)] + \
+              group_args(h['group']) + ['-Z', 'stubbing', '--exact', '--harness', h['full'], '-Z',
+                                        'concrete-playback', '--concrete-playback=print']
+        t0 = time.time()
+        try:
+            p = subprocess.run(cmd, cwd=os.path.join(REPO, g['crate']), env=ENV, stdout=subprocess.PIPE,
+                               stderr=subprocess.STDOUT, text=True, timeout=cap, preexec_fn=_limits)
+            outp = p.stdout
+        except subprocess.TimeoutExpired as e:
+            return dict(verdict='timeout', tests=[], wall_s=time.time() - t0, raw='')
+    finally:
+        lock.release()
     verdict = 'unknown'
     if 'VERIFICATION:- SUCCESSFUL' in outp:
         verdict = 'pass'
     elif 'VERIFICATION:- FAILED' in outp:
-        verdict = 'fail'
+        # kani prints FAILED also when CBMC itself died (out of memory, signal): that is no verdict
+        if re.search(r'^Failed Checks:', outp, re.M) and not re.search(r'out of memory|bad_alloc|CBMC failed|CBMC crashed', outp, re.I):
+            verdict = 'fail'
+        else:
+            verdict = 'inconclusive'
     tests = []
     for m in PB_BLOCK.finditer(outp):
         code = m.group(2)
@@ -409,6 +432,9 @@ def native_playback(group, tests_by_file, cap=900):
     ensure_playback_files()
     g = GROUPS[group]
     written = []
+    import fcntl
+    lock = open(os.path.join(BUILD, 'playback.lock'), 'w')
+    fcntl.flock(lock, fcntl.LOCK_EX)  # the include files are shared by all checks
     try:
         for f, tests in tests_by_file.items():
             p = os.path.join(PLAYBACK_DIR, f + '.rs')
@@ -435,6 +461,8 @@ def native_playback(group, tests_by_file, cap=900):
     finally:
         for p in written:
             open(p, 'w').write('')
+        fcntl.flock(lock, fcntl.LOCK_UN)
+        lock.close()
 
 
 # --------------------------------------------------------------------------
@@ -477,7 +505,7 @@ def run_property(prop, tier, seed, only=None, list_only=False, jobs=10, write_ev
     for g in groups:
         ghs = [h for h in hs if h['group'] == g]
         log('[%s] building %d harness(es) of group %s from /repo working tree ...' % (prop, len(ghs), g))
-        by, dt, err = build(g, ghs)
+        by, dt, err = build(g, ghs, prop)
         build_s[g] = round(dt, 1)
         if by is None:
             log(err)
@@ -490,8 +518,18 @@ def run_property(prop, tier, seed, only=None, list_only=False, jobs=10, write_ev
     runnable = [h for h in hs if h['group'] in metas]
     # longest caps first so the pool drains evenly
     runnable.sort(key=lambda h: -h['cap'])
+    rnd = random.Random(seed * 7919 + sum(map(ord, prop)))
+    nx = 2 if tier == 'quick' else 5
+    cand = [h for h in runnable if h['cap'] <= 400]
+    rnd.shuffle(cand)
+    if not cand:
+        cand = sorted(runnable, key=lambda h: h['cap'])
+    drv = {}
     with cf.ThreadPoolExecutor(max_workers=max(1, jobs)) as ex:
         futs = {ex.submit(run_harness, h, metas[h['group']][h['full']], workdir): h for h in runnable}
+        dfuts = {ex.submit(kani_driver_run, h, 6 * h['cap'] + 300, prop): h for h in cand[:nx]}
+        for f in cf.as_completed(dfuts):
+            drv[dfuts[f]['name']] = f.result()
         for f in cf.as_completed(futs):
             h = futs[f]
             r = f.result()
@@ -512,10 +550,16 @@ def run_property(prop, tier, seed, only=None, list_only=False, jobs=10, write_ev
     if failing:
         os.makedirs(replay_dir, exist_ok=True)
     by_group = {}
-    for r in failing:
+
+    def _cex(r):
         h = hmap[r['name']]
         log('[%s] %s failed %d check(s); asking kani for the concrete counterexample ...' % (prop, r['name'], len(r['failed'])))
-        d = kani_driver_run(h, max(4 * h['cap'], 600))
+        return r, (drv.get(r['name']) or kani_driver_run(h, max(4 * h['cap'], 600), prop))
+
+    with cf.ThreadPoolExecutor(max_workers=max(1, min(jobs, 6))) as ex:
+        cex = list(ex.map(_cex, failing))
+    for r, d in cex:
+        h = hmap[r['name']]
         r['driver_verdict'] = d['verdict']
         tests = [t for t in d['tests'] if t['kind'] != 'cover']
         r['cex_tests'] = tests
@@ -560,22 +604,19 @@ def run_property(prop, tier, seed, only=None, list_only=False, jobs=10, write_ev
 
     # ---- cross-check against the real kani driver + witnesses for the evidence
     samples, xcheck = [], []
-    passing = [r for r in results if r['status'] == 'pass']
-    rnd = random.Random(seed * 7919 + sum(map(ord, prop)))
-    nx = 2 if tier == 'quick' else 6
-    pick = sorted(passing, key=lambda r: r.get('wall_s', 0))[:max(nx * 3, 6)]
-    rnd.shuffle(pick)
-    for r in pick[:nx]:
-        h = hmap[r['name']]
-        d = kani_driver_run(h, max(6 * int(r.get('wall_s', 10)) + 120, 300))
-        agree = d['verdict'] == 'pass'
-        xcheck.append(dict(harness=r['name'], runner='pass', kani_driver=d['verdict'], agree=agree))
-        log('[%s] cross-check %s: kani driver says %s' % (prop, r['name'], d['verdict']))
+    for name, d in drv.items():
+        r = next((x for x in results if x['name'] == name), None)
+        if r is None:
+            continue
+        mine = 'pass' if r['status'] == 'pass' else ('fail' if r['status'] in ('fail', 'noreplay') or r.get('replay') else r['status'])
+        agree = (d['verdict'] == mine) or mine not in ('pass', 'fail') or d['verdict'] not in ('pass', 'fail')
+        xcheck.append(dict(harness=name, runner=mine, kani_driver=d['verdict'], agree=agree))
+        log('[%s] cross-check %s: runner=%s kani driver=%s' % (prop, name, mine, d['verdict']))
         if not agree:
-            problems.append('cross-check: runner=pass but kani driver=%s for %s' % (d['verdict'], r['name']))
+            problems.append('cross-check: runner=%s but kani driver=%s for %s' % (mine, d['verdict'], name))
         for t in d['tests']:
             if t['kind'] == 'cover':
-                samples.append(dict(harness=r['name'], cover=t['check'], witness_kani_any_values=t['values']))
+                samples.append(dict(harness=name, cover=t['check'], witness_kani_any_values=t['values']))
 
     # ---- engine extras (B / S drivers hand in their own result dicts)
     extra_ev = {}
